@@ -118,7 +118,9 @@ def run_case(c):
     if c.get("preset"):
         state.stop_training = True
     h0 = phash(state)
-    kw = dict(epochs=E, pos_batch_size=B, starting_epoch=se, lr=0.1, k=1, callbacks=cbs, time=c.get("time", False))
+    form = c.get("cb_form", "list")
+    cbs_arg = tuple(cbs) if form == "tuple" else cbs
+    kw = dict(epochs=E, pos_batch_size=B, starting_epoch=se, lr=0.1, k=1, callbacks=cbs_arg, time=c.get("time", False))
     if c.get("nbs") is not None:
         kw["neg_batch_size"] = c["nbs"]
     if t != "positive":
@@ -187,7 +189,8 @@ def sampled(draw, tier):
     ncb = draw(st.integers(1, 3))
     c = {"type": draw(st.sampled_from(gen.TYPES)), "N": draw(st.integers(1, 6)), "B": draw(st.integers(1, 4)), "se": draw(st.integers(0, 3)),
          "E": draw(st.integers(0, 4)), "cbs": [draw(st.sampled_from(["class", "lambda"])) for _ in range(ncb)], "time": draw(st.booleans()),
-         "seed": draw(st.integers(0, 2 ** 31 - 1)), "hooks_return": draw(st.booleans()), "nbs": draw(st.one_of(st.none(), st.integers(1, 6)))}
+         "seed": draw(st.integers(0, 2 ** 31 - 1)), "hooks_return": draw(st.booleans()), "nbs": draw(st.one_of(st.none(), st.integers(1, 6))),
+         "cb_form": draw(st.sampled_from(["list", "list", "tuple"]))}
     mode = draw(st.sampled_from(["none", "preset", "inject", "inject", "inject"]))
     if mode == "preset":
         c["preset"] = True
